@@ -947,3 +947,77 @@ V(id='c43-benign-new-total-binding', prop='C43', file='mpmath/math2.py',
   old="tanh = _mathfun_real(math.tanh, cmath.tanh)",
   new="tanh = _mathfun_real(math.tanh, cmath.tanh)\nasinh = _mathfun_real(math.asinh, cmath.asinh)",
   expect='silent')
+
+# ---------------------------------------------------------------- C38 -------
+V(id='c38-shared-number-class', prop='C38', file='mpmath/ctx_mp_python.py',
+  old="        ctx.mpf = type('mpf', (_mpf,), {})", new="        ctx.mpf = _mpf",
+  expect='fire:X-R1:PythonMPContext.__init__')
+V(id='c38-ctxdata-own-cell', prop='C38', file='mpmath/ctx_mp_python.py',
+  old="        ctx.mpc._ctxdata = [ctx.mpc, new, ctx._prec_rounding]",
+  new="        ctx.mpc._ctxdata = [ctx.mpc, new, [53, round_nearest]]",
+  expect='fire:X-R1:PythonMPContext.__init__')
+V(id='c38-iv-cell-borrowed', prop='C38', file='mpmath/ctx_iv.py',
+  old="        ctx._prec = [53]", new="        ctx._prec = _SHARED_PREC",
+  expect='fire:X-R1:MPIntervalContext.__init__')
+V(id='c38-class-level-cache', prop='C38', file='mpmath/functions/functions.py',
+  edits=[("        self._misc_const_cache = {}\n", ""),
+         ("class SpecialFunctions(object):", "class SpecialFunctions(object):\n    _misc_const_cache = {}")],
+  expect='fire:X-R2')
+V(id='c38-rs-cache-from-mp', prop='C38', file='mpmath/functions/rszeta.py',
+  old="        ctx._rs_cache = [0, 10, {}, {}]", new="        ctx._rs_cache = _GLOBAL_RS_CACHE",
+  expect='fire:X-R2')
+V(id='c38-clone-shares-summators', prop='C38', file='mpmath/ctx_mp.py',
+  old="        a.prec = ctx.prec\n        return a", new="        a.prec = ctx.prec\n        a.hyp_summators = ctx.hyp_summators\n        return a",
+  expect='fire:X-R3:MPContext.clone')
+V(id='c38-clone-shallow-copy', prop='C38', file='mpmath/ctx_mp.py',
+  old="        a = ctx.__class__()\n        a.prec = ctx.prec\n        return a",
+  new="        import copy\n        a = copy.copy(ctx)\n        return a",
+  expect='fire:X-R3:MPContext.clone')
+V(id='c38-mpc-abs-global-mpf', prop='C38', file='mpmath/ctx_mp_python.py',
+  old="        prec, rounding = s.context._prec_rounding\n        v = new(s.context.mpf)\n        v._mpf_ = mpc_abs(",
+  new="        prec, rounding = s.context._prec_rounding\n        v = new(mpf)\n        v._mpf_ = mpc_abs(",
+  expect='fire:X-R4:_mpc.__abs__')
+V(id='c38-library-imports-mp', prop='C38', file='mpmath/functions/zeta.py',
+  old="def stieltjes(ctx, n, a=1):", new="def stieltjes(ctx, n, a=1):\n    from mpmath import mp\n    ctx = mp",
+  expect='fire:X-R5')
+V(id='c38-coef-no-restore', prop='C38', file='mpmath/functions/rszeta.py',
+  old="""    orig = ctx._mp.prec
+    try:
+        data = _coef(ctx._mp, J, eps)
+    finally:
+        ctx._mp.prec = orig""",
+  new="""    data = _coef(ctx._mp, J, eps)""",
+  expect='fire:X-R6:coef')
+V(id='c38-coef-restores-own-ctx', prop='C38', file='mpmath/functions/rszeta.py',
+  old="""    orig = ctx._mp.prec
+    try:
+        data = _coef(ctx._mp, J, eps)
+    finally:
+        ctx._mp.prec = orig""",
+  new="""    orig = ctx.prec
+    try:
+        data = _coef(ctx._mp, J, eps)
+    finally:
+        ctx.prec = orig""",
+  expect='fire:X-R6:coef')
+V(id='c38-fp-setter-writes-mp', prop='C38', file='mpmath/ctx_fp.py',
+  old="    def _set_prec(ctx, p): return", new="    def _set_prec(ctx, p): ctx._mp.prec = p",
+  expect='fire:X-R7:FPContext._set_prec')
+V(id='c38-benign-clone-copies-pretty', prop='C38', file='mpmath/ctx_mp.py',
+  old="        a.prec = ctx.prec\n        return a", new="        a.prec = ctx.prec\n        a.pretty = ctx.pretty\n        return a",
+  expect='silent')
+V(id='c38-benign-coef-rename-snapshot', prop='C38', file='mpmath/functions/rszeta.py',
+  old="""    orig = ctx._mp.prec
+    try:
+        data = _coef(ctx._mp, J, eps)
+    finally:
+        ctx._mp.prec = orig""",
+  new="""    saved_prec = ctx._mp.prec
+    try:
+        data = _coef(ctx._mp, J, eps)
+    finally:
+        ctx._mp.prec = saved_prec""",
+  expect='silent')
+V(id='c38-benign-new-instance-cache', prop='C38', file='mpmath/functions/functions.py',
+  old="        self._misc_const_cache = {}\n", new="        self._misc_const_cache = {}\n        self._extra_cache = dict()\n",
+  expect='silent')
